@@ -27,6 +27,7 @@ THEOREMS = [
     "c19_session_id_translated",
     "c19_session_id_format",
     "c19_session_id_injective",
+    "c19_managers_independent",
 ]
 RULE = (
     "operation histories over {tick, create, get, update activity, delete, cleanup(max_age), list+mutate, clear, "
@@ -95,7 +96,9 @@ def rand_json(rng, depth=0):
 
 FALSY_AND_HOSTILE = [None, {}, [], "", 0, False, "%s %d", "{0} {}", "a\nb\r\nc", "\u2028", "'\"\\", "clientInfo",
                      "protocolVersion", "2025-03-26", 3600, {"name": "", "version": 0}, {"": None}]
-R_METHODS = [("ping", 3), ("ping", 0), ("ping", ""), ("nosuch/method", "x"), ("nosuch/method", 0), ("verif/raises", 1),
+SYNTAX_TEXT = ['{"jsonrpc":"2.0","id":1,"result":{}}', "[NaN]", ":Infinity,", '\n{"id":1}', "data: x", "id: 1", ":", "{}", "null", '"']
+FALSY_AND_HOSTILE = FALSY_AND_HOSTILE + SYNTAX_TEXT + [{t: t for t in SYNTAX_TEXT}]
+R_METHODS = [("verif/raises-keyerror", 1), ("verif/raises-recursion", 0), ("ping", 3), ("ping", 0), ("ping", ""), ("nosuch/method", "x"), ("nosuch/method", 0), ("verif/raises", 1),
              ("verif/raises-empty", ""), ("verif/nonsense", 2), ("verif/silent", 5), ("verif/answers", 0),
              ("tools/list", 9), ("notifications/initialized", None), ("notifications/cancelled", None),
              ("verif/raises", None), ("notifications/initialized", 4), (None, 1), ("", 1)]
@@ -304,6 +307,14 @@ class Histories(Suite):
             out.append({"supply": list(sup), "ops": [C, T1, ["I", None, {"client": {"name": "s"}, "version": "2025-06-18"}, 1], ["N"], T1,
                                                      ["C", {"name": "third"}, "2025-03-26"], ["G", 0], ["G", 1], ["N"], ["X", 1], ["L", "both"]]})
             out.append({"supply": list(sup), "ops": [C, ["D", 0], C, C, ["N"], ["U", 0], K, C, ["G", 0]]})
+        # directed: the SAME failing request 2, 3, 4 times in a row with a session id, then a success; a failure between successes
+        for me, mid in R_METHODS:
+            for k in (2, 3, 4):
+                ops = [C, C]
+                for _ in range(k):
+                    ops += [T1, ["R", 0, me, mid]]
+                ops += [T1, ["R", 0, "ping", 1], ["R", 1, me, mid], T1, ["R", 1, "ping", 2], ["X", 1], ["N"], T1, T1, ["X", 1], ["N"]]
+                out.append({"ops": ops})
         # directed: reuse — the same initialize envelope object dispatched three times, many sessions at once
         sp = {"client": {"name": "again"}, "version": "2025-06-18", "reuse": True}
         out.append({"ops": [["I", None, sp, 1], ["I", None, sp, 1], ["I", 0, sp, 1], ["N"], ["D", 1], ["I", 1, sp, 1], ["L", "pop"]]})
@@ -322,6 +333,13 @@ class Histories(Suite):
         rng = ctx.sub_rng("c19", budget)
         for _ in range(nseed):
             out.append(seeded(rng, maxlen))
+        # dimensions crossed with everything above: a host with logging at DEBUG (every third case), and a second,
+        # busy ProtocolHandler alive in the same process (every fifth case)
+        for k, c in enumerate(out):
+            if k % 3 == 1:
+                c["debug"] = True
+            if k % 5 == 2:
+                c["twin"] = True
         return out
 
     def impl_batch(self, cases):
@@ -361,6 +379,10 @@ class Histories(Suite):
             tag += "+Isilent"
         if case.get("supply") is not None:
             tag += "+supply"
+        if case.get("twin"):
+            tag += "+twin"
+        if case.get("debug"):
+            tag += "+debug"
         kinds = {H.kind_of(op[2], op[3]) for op in case["ops"] if op[0] == "R"}
         if kinds - {"handlerReturned"}:
             tag += "+" + ",".join(sorted(k[:7] for k in kinds - {"handlerReturned"}))
